@@ -1428,7 +1428,7 @@ def http_histories(ctx):
         ctx.note("HTTP storage stack not usable here (%s: %s): HTTP upload histories skipped, BucketWriter-level histories cover the same rule" % (type(e).__name__, e))
         return
     hists = list(HTTP_HISTORIES)
-    for i in range(ctx.n(8, 120)):
+    for i in range(ctx.n(6, 120)):
         r = ctx.rng("http", i)
         size = r.choice([4, 6, 9, 10, 12])
         clen = r.choice([2, 3, 4, 5])
@@ -1480,7 +1480,7 @@ def _run(ctx, runner):
     http_histories(ctx)
     for i, wl in enumerate(directed_workloads()):
         runner.run_workload("directed-%d" % i, wl, restart_crashes=(i == 0 or ctx.tier == "thorough"))
-    n = ctx.n(7, 150)
+    n = ctx.n(6, 150)
     base = 1000 if ctx.search else 0
     for i in range(n):
         r = ctx.rng("workload", base + i)
@@ -1488,7 +1488,7 @@ def _run(ctx, runner):
         runner.run_workload("random-%d" % (base + i), wl)
         if ctx.search and any(f["source"] == "oracle" and f["kind"] != KNOWN_KIND for f in ctx.failures):
             return
-        if ctx.elapsed() > (40 if ctx.tier == "quick" and not ctx.search else 700):
+        if ctx.elapsed() > (30 if ctx.tier == "quick" and not ctx.search else 700):
             ctx.note("workload budget cut at %d of %d by the time limit" % (i + 1, n))
             break
 
